@@ -418,6 +418,39 @@ pub fn gen_modes(d: &mut Dec, p: &GenParams) -> Vec<ModeSpec> {
     let lo = p.min_modes.clamp(1, p.max_modes.max(1));
     let n = lo + d.below(p.max_modes.max(1) - lo + 1);
     let mut modes: Vec<ModeSpec> = (0..n).map(|i| gen_mode(d, p, MODE_NAMES[i])).collect();
+    if n >= 2 && d.chance(26) {
+        // sibling modes: the same patterns and token types, differing only in lookaheads (anything
+        // that shares compiled data between modes must keep them apart)
+        let i = d.below(n);
+        let j = (i + 1 + d.below(n - 1)) % n;
+        modes[j].pats = modes[i].pats.clone();
+        let np = modes[j].pats.len();
+        match d.below(4) {
+            0 => modes[j].pats.iter_mut().for_each(|q| q.la = None),
+            1 => {
+                let k = d.below(np);
+                modes[j].pats[k].la = Some(LaSpec {
+                    positive: d.bool(),
+                    rx: gen_lookahead_rx(d, p),
+                });
+            }
+            2 => {
+                for q in modes[j].pats.iter_mut() {
+                    if let Some(la) = q.la.as_mut() {
+                        la.positive = !la.positive;
+                    }
+                }
+            }
+            _ => {
+                let k = d.below(np);
+                modes[i].pats[k].la = Some(LaSpec {
+                    positive: d.bool(),
+                    rx: gen_lookahead_rx(d, p),
+                });
+                modes[j].pats[k].la = None;
+            }
+        }
+    }
     if n >= 2 && d.chance(8) {
         // mode names need not be distinct
         let i = d.below(n);
